@@ -233,8 +233,8 @@ def case_dispatch(case):
     scheme = S.build_scheme(spec)
     group = list(scheme.model.get_dataset_groups().values())[0]
     ep = EstimationProvider(group)
-    A = build_matrix({"family": "kinetic", "m": 12, "rates": [0.1, 1.0, 10.0]})
-    y = -A[:, 0] + 0.5 * A[:, 1] + core.det_noise(12, 3, "dispatch")
+    A = build_matrix({"family": "kinetic", "m": 12, "rates": case.get("rates", [0.1, 1.0, 10.0])})
+    y = -A[:, 0] + (0.5 * A[:, 1] if A.shape[1] > 1 else 0.0) + 0.3 * core.det_noise(12, 3, "dispatch")
     got = ep.calculate_residual(A.copy(), y.copy())
     want = (residual_nnls if case["function"] == "non_negative_least_squares" else residual_variable_projection)(A.copy(), y.copy())
     other = (residual_variable_projection if case["function"] == "non_negative_least_squares" else residual_nnls)(A.copy(), y.copy())
@@ -247,7 +247,7 @@ def case_dispatch(case):
     cond = float(sv.max() / sv.min())
     chk = check_nnls if case["function"] == "non_negative_least_squares" else check_vp
     vs += chk(A, y, np.asarray(got[0]), np.asarray(got[1]), cond, "dispatch")
-    return core.ok(key=case["function"], outcome=len(vs), violations=vs)
+    return core.ok(key=[case["function"], case.get("rates")], outcome=len(vs), violations=vs)
 
 
 CASE_FUNCS = {"matrix": case_matrix, "instance": case_instance, "dispatch": case_dispatch}
@@ -279,7 +279,8 @@ def run(run: core.Run):
             for m in (2, 3, 40):
                 cases.append({"family": "scaled", "rates": [0.1, 1.0], "col": col, "factor": factor, "m": m, "seed": run.seed})
     run.map("matrix", cases)
-    run.map("dispatch", [{"function": "variable_projection"}, {"function": "non_negative_least_squares"}])
+    run.map("dispatch", [{"function": f, "rates": r} for f in ("variable_projection", "non_negative_least_squares")
+                         for r in ([0.1], [10.0], [0.1, 1.0], [0.1, 1.0, 10.0], [0.1, 0.11, 1.0, 10.0])])  # fmt: skip
     inst = sum(p["instances"] for _, p in run.payloads.get("matrix", []))
     run.evaluations += inst
     run.extra["linear_problems_certified"] = inst
